@@ -64,6 +64,11 @@ CHECKS = {
    text="sound (Authenticated u at any point of any history ⇒ same-session context with a challenge issued earlier and still current, non-empty configured password, proof made from (u up to case, configured password, that challenge)), complete, challenge_single_use, challenge_origin, unknown_or_empty_password, wrong_password, no_negotiate, other_challenge, cross_session_replay, undecodable; legacy_impersonation proves the pinned verifier violated the property (defect D24, found by this check, repaired by a fix: commit). Tie: histories of ≤ 12 calls over several session ids (negotiate, authenticate for any earlier challenge, forged user-name fields, malformed/garbage/empty) run against the real NTLMAuth.Authenticate and compared call by call with Ntlm.run.",
    design="6/C14",
    note="NTLMv2 itself (go-ntlm) is assumed sound: a proof verifies iff made from the upper-cased user name, the password and the challenge. Cache expiry (1 min) is not modelled. cmd/auth's gRPC wrapper cannot be built here (no PAM headers); the package is exercised in-process."),
+ "C20": dict(
+   technique="Lean 4 theorems: DER round trip and trailing-data rejection for KDC-PROXY-MESSAGE, status map, reply-collection loop never hangs (induction over arrivals), faithfulness of a 200 answer + differential correspondence of the real KerberosProxy.Handler against fake TCP/UDP KDCs",
+   text="parseLen_derLen, decode_encode, trailing_rejected, wrong_outer_tag, validation (405/411/413/400 and no lookup started), collect_no_hang / collect_reply / collect_noReply, always_answers (for every method, body, realm, number and behaviour of KDCs and arrival order), faithful, lookup_reply_framed, all_fail_503; legacy_first_nil_wins / legacy_hangs / legacy_all_dials_fail_hangs prove the pinned loop violated the property (D12, D13, D17; repaired). Tie: generated krb5.conf with 1–3 KDCs per realm, fake KDCs whose UDP and TCP endpoints reply / reply partially / close / stay silent / refuse, payloads 0 B – 128 KiB, realm absent/default/other/unknown, every malformed request class; status, body (= Kdc.replyBody of an acceptable reply), bytes received by each KDC, realm isolation and latency are checked.",
+   design="6/C20",
+   note="Which of several answering KDCs wins is a race: the check accepts any of them (as theorem faithful does). Wall-clock bounds are the harness's (timeout 5 s + margin). Known finding: gofork/asn1 accepts some bodies with inconsistent inner lengths (KNOWN_FINDINGS.txt); the strict decoder of the model rejects them."),
 }
 
 def entry(pid, c):
